@@ -14,6 +14,11 @@ CHECKS = {
   text="Every URI of the stated segment/separator/leading alphabet (exhaustive up to 4 segments quick, 6 thorough) is looked up on real TemplateLookup objects over a fixture tree with canary files at every place a traversal could land, directly and through include/inherit/namespace/Namespace-API calls from callers at depth 0..3; a sys.addaudithook file-access monitor, the realpath of every returned Template.filename and a canary scan of the output decide containment.",
   note="Trusted: os.path.realpath and the audit hook's coverage of open/mkdir/rename/remove/mkstemp/shutil events; symlinks and spellings outside the alphabet are not explored.",
   technique="audit-hook file-access monitor + containment oracle over exhaustively enumerated URIs"),
+ "C19": dict(
+  category="exploration", design_ref="DESIGN.md §2 C19",
+  text="CPython is the runtime oracle: random expression trees over the whole ast expression grammar (depth<=5) are re-emitted by Mako's ExpressionGenerator and compared by ast.dump and by value, and a sample runs end-to-end as def/page defaults and filter-call arguments; generated statement blocks (functions with every parameter kind, lambdas, comprehensions, try/with/loops/imports) run under strict_undefined with exactly the names CPython's symtable says they need and must equal native exec, and must raise NameError naming a removed name; 18 tricky block shapes are re-margined at 0..12 spaces/tabs in <% %> and <%! %> and compared with native exec.",
+  note="Trusted: CPython ast/symtable/eval/exec. Blocks never read a name before binding it in the same scope. Two open known findings (printer triple-quote counting; top-level comprehension target treated as body local).",
+  technique="differential runtime oracle against CPython (ast.dump / eval / exec / symtable) over grammar-generated programs"),
  "C10": dict(
   category="exploration", design_ref="DESIGN.md §2 C10",
   text="Runtime oracle over the real filter functions: every code point (exhaustive), every string of length <=3 over the markup alphabet (exhaustive), random mixtures, and the same strings through compiled templates; outputs judged by independent reference decoders. Exhaustive enumeration of single code points is the natural bound for per-character escaping functions.",
